@@ -12,3 +12,4 @@ import GarbleVerif.Proofs.BuildSound
 import GarbleVerif.Props.C04
 import GarbleVerif.Props.C10
 import GarbleVerif.Props.C15
+import GarbleVerif.Props.C03
